@@ -4,11 +4,17 @@ use crate::report::{Outcome, Violation};
 use crate::Cfg;
 use serde_json::Value;
 
+pub mod c10;
+pub mod c14;
+pub mod c15;
 pub mod c19;
 pub mod c20;
 
 pub fn run(prop: &str, cfg: &Cfg) -> Outcome {
     match prop {
+        "C10" => c10::run(cfg),
+        "C14" => c14::run(cfg),
+        "C15" => c15::run(cfg),
         "C19" => c19::run(cfg),
         "C20" => c20::run(cfg),
         _ => {
@@ -20,6 +26,9 @@ pub fn run(prop: &str, cfg: &Cfg) -> Outcome {
 
 pub fn replay(prop: &str, cfg: &Cfg, case: &Value) -> Vec<Violation> {
     match prop {
+        "C10" => c10::replay(cfg, case),
+        "C14" => c14::replay(cfg, case),
+        "C15" => c15::replay(cfg, case),
         "C19" => c19::replay(cfg, case),
         "C20" => c20::replay(cfg, case),
         _ => {
